@@ -51,20 +51,20 @@ def register(reg):
     ]
     fn("StoSOO.pull", N=N, props="C01 C03 C04 C08", params={"time": "int"}, returns="list?[real]",
        locals={"max_b_node_ind": "int?", "node": "ref:$N"},
-       requires=INV + [("budget", "time <= self.n", "C01"),
-                       # documented range: the depth cap holds the budget (depth <= completed rounds < n <= h_max)
-                       ("cap-holds-budget", "self.partition.depth < self.h_max", "C01")],
+       requires=INV + [("budget", "time <= self.n", "C01")],
        modifies=["self.iteration", "self.b_max", "self.max_b_node_ind", "self.max_b_node_h", "*StoSOO_node.b_value", "*StoSOO_node.mean_reward",
                  "*P_node.children", "self.partition.depth", "list(self.partition.node_list)", "*list[ref:StoSOO_node]"],
        ensures=INV + [
-           ("handed", "result is not None and defined(self.max_b_node_h) and defined(self.max_b_node_ind) "
+           # (pull falls through and returns None only when the sweep passed the depth cap without finding a cell to evaluate)
+           ("none-only-at-cap", "implies(result is None, self.partition.depth >= self.h_max)", "C01 C08"),
+           ("handed", "implies(result is not None, defined(self.max_b_node_h) and defined(self.max_b_node_ind) "
                       "and 0 <= self.max_b_node_h and self.max_b_node_h <= self.partition.depth and self.max_b_node_h <= self.h_max "
                       "and 0 <= self.max_b_node_ind and self.max_b_node_ind < len(%s[self.max_b_node_h]) "
-                      "and result is %s[self.max_b_node_h][self.max_b_node_ind].c_point" % (NL, NL), "C01 C04 C08"),
-           ("fewer-than-k", "%s[self.max_b_node_h][self.max_b_node_ind].visited_times < ceil(self.k) "
-                            "and %s[self.max_b_node_h][self.max_b_node_ind].children is None" % (NL, NL), "C08"),
-           ("max-b-leaf", BEST % ("self.max_b_node_h", "self.max_b_node_ind", "self.max_b_node_h", "self.max_b_node_h",
-                                  "self.max_b_node_h", "self.max_b_node_ind", "len(%s[self.max_b_node_h])" % NL), "C08"),
+                      "and result is %s[self.max_b_node_h][self.max_b_node_ind].c_point)" % (NL, NL), "C01 C04 C08"),
+           ("fewer-than-k", "implies(result is not None, %s[self.max_b_node_h][self.max_b_node_ind].visited_times < ceil(self.k) "
+                            "and %s[self.max_b_node_h][self.max_b_node_ind].children is None)" % (NL, NL), "C08"),
+           ("max-b-leaf", "implies(result is not None, " + BEST % ("self.max_b_node_h", "self.max_b_node_ind", "self.max_b_node_h", "self.max_b_node_h",
+                                  "self.max_b_node_h", "self.max_b_node_ind", "len(%s[self.max_b_node_h])" % NL) + ")", "C08"),
            KEPT])
     loop("StoSOO.pull", 0, props="C08",
          invariants=list(INV) + [("nl", "node_list is %s and 0 <= h and self.iteration == time" % NL, "C08 C01"), KEPT] + EXP)
